@@ -861,6 +861,7 @@ func vsScenario(t *testing.T, r *sim.Run, s *sim.Sched, lane string, faultsOn bo
 	e.battery(3 + T.Intn(6, "final-battery"))
 	if faultsOn {
 		a := e.genAttempt(false, nil)
+		a.fault = vsFault{} // the probe itself is fault-free and not aborted
 		a.files = a.files[:1]
 		a.files[0].text = "BenchmarkAfter 1 1 ns/op\n"
 		e.upload(clients[0], a)
